@@ -159,7 +159,9 @@ class E:
 BINOPS = [('+', 'Add', 11), ('-', 'Sub', 11), ('*', 'Mult', 12), ('/', 'Div', 12), ('//', 'FloorDiv', 12), ('%', 'Mod', 12), ('<<', 'LShift', 10), ('>>', 'RShift', 10), ('&', 'BitAnd', 9), ('^', 'BitXor', 8), ('|', 'BitOr', 7)]
 CMPOPS = [('<', 'Lt'), ('>', 'Gt'), ('==', 'Eq'), ('>=', 'GtE'), ('<=', 'LtE'), ('!=', 'NotEq'), ('in', 'In'), ('not in', 'NotIn'), ('is', 'Is'), ('is not', 'IsNot')]
 AUGOPS = [('+=', 'Add'), ('-=', 'Sub'), ('*=', 'Mult'), ('/=', 'Div'), ('//=', 'FloorDiv'), ('%=', 'Mod'), ('**=', 'Pow'), ('<<=', 'LShift'), ('>>=', 'RShift'), ('&=', 'BitAnd'), ('^=', 'BitXor'), ('|=', 'BitOr')]
-NAMES = ['a', 'b', 'c', 'x', 'y', 'foo', 'bar_1', 'Z', '_q', 'ifx', 'nota', 'is_', 'None_', 'lambda_', 'e1']
+NAMES = ['a', 'b', 'c', 'x', 'y', 'foo', 'bar_1', 'Z', '_q', 'ifx', 'nota', 'is_', 'None_', 'lambda_', 'e1',
+         # identifiers with letters beyond ASCII (all NFKC-stable), among them ones whose ASCII part spells a reserved word
+         'not\u00e9', 'or\u00e9', 'pass\u00e9', 'for\u00eat', 'in\u00e9', 'import\u00e9', 'is\u00df', 'caf\u00e9', '\u00e9if', '\u5909\u6570', '\u00dcn\u00ef', 'x\u03b1', '\u03bb', 'None\u00e9', 'def\u00e4']
 
 
 class G:
@@ -1198,6 +1200,14 @@ def run(tier, rep):
             # a physical line that consists of a backslash continuation only, followed by an indented line: the 3.4 tokenizer measures the
             # indentation at the backslash (none), 3.11 (bpo-46091) at the continuation text ("unexpected indent"). Version-unstable, not judged.
             rep.extra_bslash = getattr(rep, 'extra_bslash', 0) + 1
+        elif 'dump' in g and feat == 'mutation' and re.search(r'(?<![\w.])(?:\d+\.?\d*|\.\d+)(?!(?:and|else|for|if|in|is|not|or)\b)[A-Za-z_\u0080-\uffff]', re.sub(r'0[xXoObB][0-9a-fA-F]+|\d+\.?\d*[eE][-+]?\d+|\d[jJ]', '0', c['src'])):
+            # a number directly followed by a name or keyword (`0from x`, `1as`): two tokens for the 3.4 tokenizer; CPython >= 3.8 / 3.11 only lets
+            # and / else / for / if / in / is / not / or abut a number ("invalid decimal literal" otherwise). Version-unstable, not judged.
+            rep.extra_numabut = getattr(rep, 'extra_numabut', 0) + 1
+        elif 'dump' in g and feat == 'mutation' and '\\N' in c['src']:
+            # the mutation produced a \N escape: named escapes are not implemented at all (known finding C06-named-unicode-escape-*, judged on its directed
+            # texts); a mutated text is not attributed to it a second time under another signature
+            rep.extra_bsn = getattr(rep, 'extra_bsn', 0) + 1
         elif 'dump' in g:
             sub = rej_class(c['src'], g['dump']) if feat == 'mutation' else 'text=' + c['src'].strip()[:40]
             rep.violation('C06|reject|%s|accepted-text-outside-grammar|%s' % (feat, sub), w)
